@@ -105,6 +105,471 @@ proof fn lemma_shr_limbs(s: Seq<Limb>, t: Seq<Limb>, m: nat, r: u32)
     }
 }
 
+// ---------------------------------------------------------------- Knuth algorithm D lemmas
+
+/// quotient digit estimate from the top 3 by 2 limbs is the true digit or one more
+proof fn lemma_knuth_digit(wv: int, y: int, u3: int, v2: int, wl: int, yl: int, e: int, q: int)
+    requires
+        e >= 1, wv == u3 * e + wl, 0 <= wl < e, y == v2 * e + yl, 0 <= yl < e,
+        0 <= wv < y * B(), 2 * y >= B() * B() * e, u3 >= 0, v2 > 0,
+        q == min_int(B() - 1, u3 / v2),
+    ensures
+        wv / y <= q <= wv / y + 1, 0 <= wv / y <= B() - 1,
+{
+    let b = B();
+    let qt = wv / y;
+    assert(y > 0) by (nonlinear_arith) requires 2 * y >= b * b * e, e >= 1, b == B();
+    lemma_fundamental_div_mod(wv, y);
+    lemma_mod_bound(wv, y);
+    lemma_div_pos_is_pos(wv, y);
+    assert(y * qt == qt * y) by (nonlinear_arith);
+    assert(qt * y <= wv < (qt + 1) * y) by (nonlinear_arith) requires wv == y * qt + wv % y, 0 <= wv % y < y;
+    // qt <= b-1
+    assert(qt < b) by (nonlinear_arith) requires qt * y <= wv, wv < y * b, y > 0;
+    let q3 = u3 / v2;
+    lemma_fundamental_div_mod(u3, v2);
+    lemma_mod_bound(u3, v2);
+    lemma_div_pos_is_pos(u3, v2);
+    assert(v2 * q3 == q3 * v2) by (nonlinear_arith);
+    assert(q3 * v2 <= u3 < (q3 + 1) * v2) by (nonlinear_arith) requires u3 == v2 * q3 + u3 % v2, 0 <= u3 % v2 < v2;
+    // qt <= q3
+    assert(qt * (v2 * e) <= qt * y) by (nonlinear_arith) requires qt >= 0, y == v2 * e + yl, yl >= 0;
+    assert(qt * (v2 * e) == qt * v2 * e) by (nonlinear_arith);
+    assert(qt * v2 < u3 + 1) by (nonlinear_arith) requires qt * v2 * e <= wv, wv == u3 * e + wl, wl < e, e >= 1;
+    assert(qt < q3 + 1) by (nonlinear_arith) requires qt * v2 <= u3, u3 < (q3 + 1) * v2, v2 > 0;
+    assert(qt <= q);
+    // q <= qt + 1
+    if q >= qt + 2 {
+        assert(q <= q3);
+        assert(q * v2 <= u3) by (nonlinear_arith) requires q <= q3, q3 * v2 <= u3, v2 > 0;
+        assert((qt + 2) * v2 <= q * v2) by (nonlinear_arith) requires qt + 2 <= q, v2 > 0;
+        assert((qt + 2) * v2 * e <= u3 * e) by (nonlinear_arith) requires (qt + 2) * v2 <= u3, e >= 1;
+        // (qt+2)*v2*e = (qt+2)*(y - yl)
+        assert((qt + 2) * v2 * e == (qt + 2) * y - (qt + 2) * yl) by (nonlinear_arith) requires y == v2 * e + yl;
+        assert((qt + 2) * yl <= (qt + 2) * e) by (nonlinear_arith) requires qt + 2 >= 0, yl <= e;
+        // wv >= u3*e >= (qt+2)*y - (qt+2)*e ; wv < (qt+1)*y  => y < (qt+2)*e
+        assert((qt + 2) * y == (qt + 1) * y + y) by (nonlinear_arith);
+        assert(y < (qt + 2) * e);
+        assert((qt + 2) * e <= (b + 1) * e) by (nonlinear_arith) requires qt + 2 <= b + 1, e >= 1;
+        assert(b * b * e > 2 * ((b + 1) * e)) by (nonlinear_arith) requires e >= 1, b == 0x1_0000_0000_0000_0000;
+        assert(false);
+    }
+}
+
+/// if val(s, n) < B^k (k <= n) then the upper limbs do not contribute
+proof fn lemma_val_small(s: Seq<Limb>, k: nat, n: nat)
+    requires k <= n, val(s, n) < bp(k),
+    ensures val(s, k) == val(s, n), forall|j: int| k <= j < n ==> s[j].0 == 0,
+    decreases n - k
+{
+    if n > k {
+        lemma_tv_bound(s, 0, (n - 1) as nat);
+        lemma_bp_succ((n - 1) as nat);
+        let top = s[n - 1].0 as int; let pn = bp((n - 1) as nat);
+        assert(val(s, 0) == 0);
+        lemma_pow_increases(B() as nat, k, (n - 1) as nat);
+        assert(bp(k) <= pn);
+        assert(top >= 1 ==> top * pn >= pn) by (nonlinear_arith) requires pn > 0;
+        assert(top == 0);
+        assert(0 * pn == 0);
+        assert(top * pn == 0);
+        lemma_val_small(s, k, (n - 1) as nat);
+    }
+}
+
+/// shifting a limb sequence down by d positions
+proof fn lemma_shift_down(s: Seq<Limb>, t: Seq<Limb>, d: nat, n: nat, m: nat)
+    requires m + d <= n, forall|j: int| 0 <= j < m ==> t[j] == s[j + d],
+    ensures val(t, m) * bp(d) == tv(s, d, m + d),
+    decreases m
+{
+    if m > 0 {
+        lemma_shift_down(s, t, d, n, (m - 1) as nat);
+        lemma_bp_add((m - 1) as nat, d);
+        let a = t[m - 1].0 as int;
+        assert(t[m - 1] == s[m - 1 + d]);
+        assert((val(t, (m - 1) as nat) + a * bp((m - 1) as nat)) * bp(d) == val(t, (m - 1) as nat) * bp(d) + a * (bp((m - 1) as nat) * bp(d))) by (nonlinear_arith);
+        assert((m - 1 + d) as nat == (m + d - 1) as nat);
+    } else {
+        assert(0 * bp(d) == 0);
+    }
+}
+
+/// tv(s, p, n) / B^p
+spec fn tvq(s: Seq<Limb>, p: nat, n: nat) -> int
+    decreases n
+{ if n <= p { 0 } else { tvq(s, p, (n - 1) as nat) + s[n - 1].0 as int * bp((n - 1 - p) as nat) } }
+
+proof fn lemma_tv_factor(s: Seq<Limb>, p: nat, n: nat)
+    requires p <= n
+    ensures tv(s, p, n) == bp(p) * tvq(s, p, n), tvq(s, p, n) >= 0
+    decreases n - p
+{
+    if n > p {
+        lemma_tv_factor(s, p, (n - 1) as nat);
+        lemma_bp_add(p, (n - 1 - p) as nat);
+        lemma_bp_succ((n - 1 - p) as nat);
+        let a = s[n - 1].0 as int; let e = bp((n - 1 - p) as nat);
+        assert((p + (n - 1 - p)) as nat == (n - 1) as nat);
+        assert(bp(p) * (tvq(s, p, (n - 1) as nat) + a * e) == bp(p) * tvq(s, p, (n - 1) as nat) + a * (bp(p) * e)) by (nonlinear_arith);
+        assert(a * e >= 0) by (nonlinear_arith) requires a >= 0, e > 0;
+    } else {
+        assert(bp(p) * 0 == 0);
+    }
+}
+
+/// normalisation: with shift = (64 - dbits % 64) % 64 the divisor fills its top limb
+proof fn lemma_knuth_norm(rv: int, sv: int, dbits: nat, yc: nat, n: nat, shift: nat)
+    requires rv > 0, dbits >= 1, rv < p2(dbits), rv >= p2((dbits - 1) as nat), yc as int == (dbits + 63) / 64,
+        shift as int == (64 - (dbits % 64)) % 64, 0 <= sv < bp(n), 1 <= yc <= n,
+    ensures
+        ({ let s2 = p2(shift); let yv = rv * s2; let xv = sv * s2;
+           &&& s2 > 0 &&& shift < 64 &&& 2 * yv >= bp(yc) &&& yv < bp(yc) &&& yv > 0
+           &&& 0 <= xv &&& xv < yv * bp((n - yc + 1) as nat) })
+{
+    let s2 = p2(shift); let yv = rv * s2; let xv = sv * s2;
+    lemma_pow2_pos(shift);
+    lemma_pow2_64();
+    lemma_bp_pow2(yc);
+    assert(dbits + shift == 64 * yc);
+    lemma_pow2_adds((dbits - 1) as nat, shift);
+    lemma_pow2_adds(dbits, shift);
+    lemma_pow2_unfold(64 * yc);
+    assert((dbits - 1 + shift) as nat == (64 * yc - 1) as nat);
+    assert(rv * s2 >= p2((dbits - 1) as nat) * s2) by (nonlinear_arith) requires rv >= p2((dbits - 1) as nat), s2 > 0;
+    assert(rv * s2 < p2(dbits) * s2) by (nonlinear_arith) requires rv < p2(dbits), s2 > 0;
+    assert(2 * yv >= bp(yc) && yv < bp(yc));
+    lemma_bp_succ(yc);
+    if shift < 63 { lemma_pow2_strictly_increases(shift, 63); }
+    assert(s2 <= 0x8000_0000_0000_0000);
+    lemma_bp_add(yc, (n - yc + 1) as nat);
+    assert((yc + (n - yc + 1)) as nat == n + 1);
+    lemma_bp_succ(n); lemma_bp_succ((n - yc + 1) as nat);
+    assert(xv >= 0) by (nonlinear_arith) requires xv == sv * s2, sv >= 0, s2 > 0;
+    assert(xv < s2 * bp(n)) by (nonlinear_arith) requires xv == sv * s2, sv < bp(n), s2 > 0;
+    assert(s2 * bp(n) <= 0x8000_0000_0000_0000 * bp(n)) by (nonlinear_arith) requires s2 <= 0x8000_0000_0000_0000, bp(n) > 0;
+    assert(2 * (yv * bp((n - yc + 1) as nat)) >= bp(yc) * bp((n - yc + 1) as nat)) by (nonlinear_arith)
+        requires 2 * yv >= bp(yc), bp((n - yc + 1) as nat) > 0;
+}
+
+/// a normalised divisor has the top bit of its top limb set
+proof fn lemma_knuth_top_norm(ys: Seq<Limb>, yc: nat)
+    requires yc >= 1, 2 * val(ys, yc) >= bp(yc)
+    ensures ys[yc - 1].0 as int >= B() / 2, ys[yc - 1].0 != 0
+{
+    lemma_val_bound(ys, (yc - 1) as nat);
+    lemma_bp_succ((yc - 1) as nat);
+    let top = ys[yc - 1].0 as int; let pt = bp((yc - 1) as nat);
+    assert(2 * top >= B() - 1) by (nonlinear_arith)
+        requires 2 * (val(ys, (yc - 1) as nat) + top * pt) >= B() * pt, val(ys, (yc - 1) as nat) <= pt - 1, pt > 0;
+}
+
+/// undo the normalisation: the remainder of the shifted problem is the shifted remainder
+proof fn lemma_knuth_unshift(sv: int, rv: int, s2: int, qacc: int, rem_n: int, hi: int, lo: int)
+    requires s2 > 0, rv > 0, sv * s2 == qacc * (rv * s2) + rem_n, rem_n == hi + lo, hi >= 0, lo >= 0, rem_n < rv * s2,
+    ensures qacc * rv + rem_n / s2 == sv, 0 <= rem_n / s2 < rv
+{
+    let rr = sv - qacc * rv;
+    assert(rem_n == rr * s2) by (nonlinear_arith) requires sv * s2 == qacc * (rv * s2) + rem_n, rr == sv - qacc * rv;
+    assert(0 <= rr < rv) by (nonlinear_arith) requires rem_n == rr * s2, 0 <= rem_n, rem_n < rv * s2, s2 > 0;
+    lemma_div_multiples_vanish(rr, s2);
+    assert(rr * s2 == s2 * rr) by (nonlinear_arith);
+    lemma_div_by_multiple(rr, s2);
+}
+
+/// scaled window value of one Knuth iteration: limbs p..k of x (p = k - yc) with the extra top limb h
+spec fn kn_wsc(xb: Seq<Limb>, h: int, k: nat, yc: nat) -> int { tv(xb, (k - yc) as nat, k) + h * bp(k) }
+/// the true quotient digit of the iteration
+spec fn kn_qt(xb: Seq<Limb>, h: int, k: nat, yc: nat, yv: int) -> int { kn_wsc(xb, h, k, yc) / (yv * bp((k - yc) as nat)) }
+
+/// the top dividend limb does not exceed the top divisor limb (precondition of div3by2)
+proof fn lemma_knuth_top(xb: Seq<Limb>, ys: Seq<Limb>, h: int, k: nat, yc: nat, yv: int)
+    requires 2 <= yc <= k, yv == val(ys, yc), h >= 0,
+        h * bp(k) + val(xb, k) < yv * bp((k - yc + 1) as nat),
+    ensures h <= ys[yc - 1].0 as int
+{
+    let p = (k - yc) as nat; let pp = bp(p);
+    lemma_bp_succ(p); lemma_bp_succ((yc - 1) as nat); lemma_bp_succ(k);
+    lemma_bp_add(p, yc);
+    lemma_val_bound(xb, k); lemma_val_bound(ys, (yc - 1) as nat);
+    let top = ys[yc - 1].0 as int;
+    let pt = bp((yc - 1) as nat);
+    assert(yv == val(ys, (yc - 1) as nat) + top * pt);
+    assert(yv < (top + 1) * pt) by (nonlinear_arith)
+        requires yv == val(ys, (yc - 1) as nat) + top * pt, val(ys, (yc - 1) as nat) <= pt - 1;
+    assert(B() * pp > 0) by (nonlinear_arith) requires pp > 0;
+    assert(yv * (B() * pp) < (top + 1) * pt * (B() * pp)) by (nonlinear_arith)
+        requires yv < (top + 1) * pt, B() * pp > 0;
+    assert((top + 1) * pt * (B() * pp) == (top + 1) * bp(k)) by (nonlinear_arith)
+        requires bp(k) == pp * bp(yc), bp(yc) == B() * pt;
+    assert((k - yc + 1) as nat == p + 1);
+    assert(yv * bp((k - yc + 1) as nat) == yv * (B() * pp));
+    assert(h < top + 1) by (nonlinear_arith) requires h * bp(k) < (top + 1) * bp(k), bp(k) > 0;
+}
+
+/// the 3-by-2 estimate is the true digit qt or qt + 1
+proof fn lemma_knuth_quo(xb: Seq<Limb>, ys: Seq<Limb>, h: int, k: nat, yc: nat, yv: int, quo: int)
+    requires 2 <= yc <= k, yv == val(ys, yc), 2 * yv >= bp(yc), yv < bp(yc), 0 <= h,
+        h * bp(k) + val(xb, k) < yv * bp((k - yc + 1) as nat),
+        ys[yc - 1].0 as int >= B() / 2,
+        quo == min_int(B() - 1, ((h * B() + xb[k - 1].0 as int) * B() + xb[k - 2].0 as int) / (ys[yc - 1].0 as int * B() + ys[yc - 2].0 as int)),
+    ensures
+        kn_qt(xb, h, k, yc, yv) <= quo <= kn_qt(xb, h, k, yc, yv) + 1,
+        0 <= kn_qt(xb, h, k, yc, yv) <= B() - 1,
+        kn_qt(xb, h, k, yc, yv) * yv * bp((k - yc) as nat) <= kn_wsc(xb, h, k, yc) < (kn_qt(xb, h, k, yc, yv) + 1) * yv * bp((k - yc) as nat),
+        kn_wsc(xb, h, k, yc) >= 0, yv * bp((k - yc) as nat) > 0,
+{
+    let p = (k - yc) as nat; let pp = bp(p);
+    let xi = (k - 1) as nat;
+    let wsc = kn_wsc(xb, h, k, yc);
+    let qt = kn_qt(xb, h, k, yc, yv);
+    let e = bp((yc - 2) as nat);
+    lemma_bp_succ(p); lemma_bp_succ(0); lemma_bp_succ(k); lemma_bp_succ((yc - 1) as nat); lemma_bp_succ((yc - 2) as nat);
+    lemma_bp_add(p, yc); lemma_bp_add(p, (yc - 1) as nat); lemma_bp_add(p, (yc - 2) as nat);
+    lemma_tv_bound(xb, 0, k); lemma_tv_bound(xb, 0, p); lemma_tv_bound(xb, p, k); assert(val(xb, 0) == 0);
+    lemma_tv_bound(ys, 0, (yc - 1) as nat); lemma_tv_bound(ys, 0, (yc - 2) as nat); assert(val(ys, 0) == 0);
+    assert((k - yc + 1) as nat == p + 1);
+    let top = ys[yc - 1].0 as int; let y2 = ys[yc - 2].0 as int;
+    let x1 = xb[xi as int].0 as int; let x0 = xb[xi - 1].0 as int;
+    let u3 = (h * B() + x1) * B() + x0;
+    let v2 = top * B() + y2;
+    let wl_sc = tv(xb, p, (xi - 1) as nat);
+    lemma_tv_bound(xb, p, (xi - 1) as nat);
+    lemma_bp_succ((xi - 1) as nat); lemma_bp_succ(xi);
+    assert((p + (yc - 2)) as nat == (xi - 1) as nat);
+    assert(bp((xi - 1) as nat) == pp * e);
+    assert(val(xb, k) == val(xb, xi) + x1 * bp(xi));
+    assert(val(xb, xi) == val(xb, (xi - 1) as nat) + x0 * bp((xi - 1) as nat));
+    assert(wsc == wl_sc + u3 * (pp * e)) by (nonlinear_arith)
+        requires wsc == wl_sc + x0 * bp((xi - 1) as nat) + x1 * bp(xi) + h * bp(k),
+            bp(xi) == B() * bp((xi - 1) as nat), bp(k) == B() * bp(xi), bp((xi - 1) as nat) == pp * e,
+            u3 == (h * B() + x1) * B() + x0;
+    let yl = val(ys, (yc - 2) as nat);
+    assert(val(ys, yc) == val(ys, (yc - 1) as nat) + top * bp((yc - 1) as nat));
+    assert(val(ys, (yc - 1) as nat) == yl + y2 * e);
+    assert(yv == v2 * e + yl) by (nonlinear_arith)
+        requires yv == yl + y2 * e + top * bp((yc - 1) as nat), bp((yc - 1) as nat) == B() * e, v2 == top * B() + y2;
+    assert(yv * pp == v2 * (pp * e) + yl * pp) by (nonlinear_arith) requires yv == v2 * e + yl;
+    assert(0 <= yl * pp < pp * e) by (nonlinear_arith) requires 0 <= yl < e, pp > 0;
+    assert(wl_sc < pp * e);
+    assert(wsc <= h * bp(k) + val(xb, k));
+    assert(wsc < (yv * pp) * B()) by (nonlinear_arith)
+        requires wsc <= h * bp(k) + val(xb, k), h * bp(k) + val(xb, k) < yv * (B() * pp);
+    assert(2 * (yv * pp) >= B() * B() * (pp * e)) by (nonlinear_arith)
+        requires 2 * yv >= bp(yc), bp(yc) == B() * bp((yc - 1) as nat), bp((yc - 1) as nat) == B() * e, pp > 0;
+    assert(pp * e >= 1) by (nonlinear_arith) requires pp >= 1, e >= 1;
+    assert(u3 >= 0) by (nonlinear_arith) requires u3 == (h * B() + x1) * B() + x0, h >= 0, x1 >= 0, x0 >= 0;
+    assert(v2 > 0) by (nonlinear_arith) requires v2 == top * B() + y2, top >= B() / 2, y2 >= 0;
+    assert(wsc >= 0) by (nonlinear_arith) requires wsc == wl_sc + u3 * (pp * e), wl_sc >= 0, u3 >= 0, pp * e >= 1;
+    lemma_knuth_digit(wsc, yv * pp, u3, v2, wl_sc, yl * pp, pp * e, quo);
+    assert(yv * pp > 0) by (nonlinear_arith) requires 2 * yv >= bp(yc), bp(yc) > 0, pp > 0;
+    lemma_fundamental_div_mod(wsc, yv * pp);
+    lemma_mod_bound(wsc, yv * pp);
+    assert(qt * yv * pp <= wsc < (qt + 1) * yv * pp) by (nonlinear_arith)
+        requires wsc == (yv * pp) * qt + wsc % (yv * pp), 0 <= wsc % (yv * pp) < yv * pp;
+}
+
+/// one limb of the multiply-and-subtract loop
+proof fn lemma_knuth_sub_step(xb: Seq<Limb>, xo: Seq<Limb>, xn: Seq<Limb>, ys: Seq<Limb>, p: nat, i: nat, q: int,
+        c0: int, c1: int, b0: int, b1: int, tm: int)
+    requires
+        forall|j: int| 0 <= j < p + i ==> xn[j] == xo[j],
+        xo[(p + i) as int] == xb[(p + i) as int],
+        tv(xo, p, p + i) == tv(xb, p, p + i) - q * val(ys, i) * bp(p) + c0 * bp(p + i) + b0 * bp(p + i),
+        tm + c1 * B() == ys[i as int].0 as int * q + c0,
+        xn[(p + i) as int].0 as int - b1 * B() == xb[(p + i) as int].0 as int - tm - b0,
+    ensures
+        tv(xn, p, p + i + 1) == tv(xb, p, p + i + 1) - q * val(ys, i + 1) * bp(p) + c1 * bp(p + i + 1) + b1 * bp(p + i + 1),
+{
+    let kk = p + i; let pp = bp(p);
+    lemma_val_ext(xo, xn, kk);
+    lemma_val_ext(xo, xn, p);
+    lemma_bp_succ(kk);
+    lemma_bp_add(p, i);
+    let pk = bp(kk);
+    let xov = xb[kk as int].0 as int; let xnv = xn[kk as int].0 as int;
+    let yi = ys[i as int].0 as int;
+    assert(val(xn, kk + 1) == val(xn, kk) + xnv * pk);
+    assert(val(xb, kk + 1) == val(xb, kk) + xov * pk);
+    assert(val(ys, i + 1) == val(ys, i) + yi * bp(i));
+    assert(xnv * pk == xov * pk - (yi * q) * pk + c1 * (B() * pk) - c0 * pk + b1 * (B() * pk) - b0 * pk) by (nonlinear_arith)
+        requires tm + c1 * B() == yi * q + c0, xnv - b1 * B() == xov - tm - b0;
+    assert((yi * q) * pk == q * (yi * bp(i)) * pp) by (nonlinear_arith) requires pk == pp * bp(i);
+    assert(q * (val(ys, i) + yi * bp(i)) * pp == q * val(ys, i) * pp + q * (yi * bp(i)) * pp) by (nonlinear_arith);
+}
+
+/// after the top limb: the borrow tells whether the estimate was one too large
+proof fn lemma_knuth_sub_final(xb: Seq<Limb>, xs: Seq<Limb>, h: int, k: nat, yc: nat, yv: int, q: int, c: int, b0: int, b1: int)
+    requires 2 <= yc <= k, 0 < yv <= bp(yc),
+        kn_qt(xb, h, k, yc, yv) <= q <= kn_qt(xb, h, k, yc, yv) + 1,
+        kn_qt(xb, h, k, yc, yv) * yv * bp((k - yc) as nat) <= kn_wsc(xb, h, k, yc) < (kn_qt(xb, h, k, yc, yv) + 1) * yv * bp((k - yc) as nat),
+        tv(xs, (k - yc) as nat, k) == tv(xb, (k - yc) as nat, k) - q * yv * bp((k - yc) as nat) + c * bp(k) + b0 * bp(k),
+        b0 == 0 || b0 == 1, b1 == 0 || b1 == 1, 0 <= c < B(), 0 <= h < B(),
+        (b1 == 1) <==> (h - c - b0 < 0),
+    ensures
+        (b1 == 1) <==> (q == kn_qt(xb, h, k, yc, yv) + 1),
+        tv(xs, (k - yc) as nat, k) == (if b1 == 1 { bp(k) + (kn_wsc(xb, h, k, yc) - kn_qt(xb, h, k, yc, yv) * yv * bp((k - yc) as nat)) - yv * bp((k - yc) as nat) }
+                                       else { kn_wsc(xb, h, k, yc) - kn_qt(xb, h, k, yc, yv) * yv * bp((k - yc) as nat) }),
+{
+    let p = (k - yc) as nat; let pp = bp(p);
+    let wsc = kn_wsc(xb, h, k, yc); let qt = kn_qt(xb, h, k, yc, yv);
+    let tt = h - c - b0 + b1 * B();
+    assert(0 <= tt <= B() - 1);
+    lemma_bp_add(p, yc);
+    lemma_bp_succ(k); lemma_bp_succ(p);
+    let pt = bp(k);
+    assert(tt * pt - b1 * (B() * pt) == h * pt - c * pt - b0 * pt) by (nonlinear_arith)
+        requires tt - b1 * B() == h - c - b0;
+    let l = tv(xs, p, k);
+    assert(l + tt * pt == wsc - q * yv * pp + b1 * (B() * pt));
+    lemma_tv_bound(xs, p, k);
+    assert(0 <= tt * pt <= (B() - 1) * pt) by (nonlinear_arith) requires 0 <= tt <= B() - 1, pt > 0;
+    assert((B() - 1) * pt == B() * pt - pt) by (nonlinear_arith);
+    assert(yv * pp <= bp(yc) * pp) by (nonlinear_arith) requires yv <= bp(yc), pp > 0;
+    assert(bp(yc) * pp == pt) by (nonlinear_arith) requires pt == pp * bp(yc);
+    assert(q * yv * pp == qt * yv * pp + (q - qt) * (yv * pp)) by (nonlinear_arith);
+    assert((qt + 1) * yv * pp == qt * yv * pp + yv * pp) by (nonlinear_arith);
+    let tpt = tt * pt; let bpt = B() * pt;
+    let rprime = wsc - qt * yv * pp;
+    assert(0 <= rprime < yv * pp);
+    assert(tt >= 1 ==> tpt >= pt) by (nonlinear_arith) requires tpt == tt * pt, pt > 0;
+    assert(tt <= B() - 2 ==> tpt <= bpt - 2 * pt) by (nonlinear_arith) requires tpt == tt * pt, bpt == B() * pt, pt > 0;
+    assert(tpt >= 0) by (nonlinear_arith) requires tpt == tt * pt, tt >= 0, pt > 0;
+    assert(b1 == 0 ==> b1 * bpt == 0) by (nonlinear_arith);
+    assert(b1 == 1 ==> b1 * bpt == bpt) by (nonlinear_arith);
+    if q == qt {
+        assert((q - qt) * (yv * pp) == 0) by (nonlinear_arith) requires q - qt == 0;
+        assert(l + tpt == rprime + b1 * bpt);
+        assert(b1 == 0);
+        assert(tt == 0);
+        assert(tpt == 0) by (nonlinear_arith) requires tpt == tt * pt, tt == 0;
+        assert(l == rprime);
+    } else {
+        assert(q == qt + 1);
+        assert((q - qt) * (yv * pp) == yv * pp) by (nonlinear_arith) requires q - qt == 1;
+        assert(l + tpt == rprime - yv * pp + b1 * bpt);
+        assert(b1 == 1);
+        assert(tt == B() - 1);
+        assert(tpt == bpt - pt) by (nonlinear_arith) requires tpt == tt * pt, bpt == B() * pt, tt == B() - 1;
+        assert(l == pt + rprime - yv * pp);
+    }
+}
+
+/// one limb of the conditional add-back loop
+proof fn lemma_knuth_add_step(xs: Seq<Limb>, xo: Seq<Limb>, xn: Seq<Limb>, ys: Seq<Limb>, p: nat, i: nat, m: int, sel: int,
+        c0: int, c1: int)
+    requires
+        forall|j: int| 0 <= j < p + i ==> xn[j] == xo[j],
+        xo[(p + i) as int] == xs[(p + i) as int],
+        tv(xo, p, p + i) + c0 * bp(p + i) == tv(xs, p, p + i) + m * val(ys, i) * bp(p),
+        (m == 1 && sel == ys[i as int].0 as int) || (m == 0 && sel == 0),
+        xn[(p + i) as int].0 as int + c1 * B() == xs[(p + i) as int].0 as int + sel + c0,
+    ensures
+        tv(xn, p, p + i + 1) + c1 * bp(p + i + 1) == tv(xs, p, p + i + 1) + m * val(ys, i + 1) * bp(p),
+{
+    let kk = p + i; let pp = bp(p);
+    lemma_val_ext(xo, xn, kk);
+    lemma_val_ext(xo, xn, p);
+    lemma_bp_succ(kk);
+    lemma_bp_add(p, i);
+    let pk = bp(kk);
+    let xov = xs[kk as int].0 as int; let xnv = xn[kk as int].0 as int; let yi = ys[i as int].0 as int;
+    assert(val(xn, kk + 1) == val(xn, kk) + xnv * pk);
+    assert(val(xs, kk + 1) == val(xs, kk) + xov * pk);
+    assert(val(ys, i + 1) == val(ys, i) + yi * bp(i));
+    assert(m * yi == sel) by (nonlinear_arith) requires (m == 1 && sel == yi) || (m == 0 && sel == 0);
+    assert(xnv * pk + c1 * (B() * pk) == xov * pk + m * yi * pk + c0 * pk) by (nonlinear_arith)
+        requires xnv + c1 * B() == xov + m * yi + c0;
+    assert(m * yi * pk == m * (yi * bp(i)) * pp) by (nonlinear_arith) requires pk == pp * bp(i);
+    assert(m * (val(ys, i) + yi * bp(i)) * pp == m * val(ys, i) * pp + m * (yi * bp(i)) * pp) by (nonlinear_arith);
+}
+
+/// after the add-back loop the window holds the true partial remainder
+proof fn lemma_knuth_add_final(xs: Seq<Limb>, xa: Seq<Limb>, k: nat, yc: nat, yv: int, m: int, c: int, rp: int)
+    requires 2 <= yc <= k, 0 < yv <= bp(yc), m == 0 || m == 1, c >= 0,
+        tv(xa, (k - yc) as nat, k) + c * bp(k) == tv(xs, (k - yc) as nat, k) + m * yv * bp((k - yc) as nat),
+        tv(xs, (k - yc) as nat, k) == (if m == 1 { bp(k) + rp - yv * bp((k - yc) as nat) } else { rp }),
+        0 <= rp < yv * bp((k - yc) as nat),
+    ensures tv(xa, (k - yc) as nat, k) == rp
+{
+    let p = (k - yc) as nat; let pp = bp(p);
+    lemma_bp_add(p, yc); lemma_bp_succ(p); lemma_bp_succ(k);
+    lemma_tv_bound(xa, p, k);
+    let pt = bp(k);
+    let cpt = c * pt;
+    assert(yv * pp <= bp(yc) * pp) by (nonlinear_arith) requires yv <= bp(yc), pp > 0;
+    assert(bp(yc) * pp == pt) by (nonlinear_arith) requires pt == pp * bp(yc);
+    assert(c == 0 ==> cpt == 0) by (nonlinear_arith) requires cpt == c * pt;
+    assert(c == 1 ==> cpt == pt) by (nonlinear_arith) requires cpt == c * pt;
+    assert(c >= 2 ==> cpt >= 2 * pt) by (nonlinear_arith) requires cpt == c * pt, pt > 0;
+    if m == 1 {
+        assert(m * yv * pp == yv * pp) by (nonlinear_arith) requires m == 1;
+    } else {
+        assert(m * yv * pp == 0) by (nonlinear_arith) requires m == 0;
+    }
+}
+
+/// the partial remainder below the window plus the reduced window stays below yv * B^p
+proof fn lemma_knuth_rem_bound(xb: Seq<Limb>, h: int, k: nat, yc: nat, yv: int, qt: int)
+    requires 2 <= yc <= k,
+        kn_wsc(xb, h, k, yc) - qt * yv * bp((k - yc) as nat) < yv * bp((k - yc) as nat),
+    ensures val(xb, (k - yc) as nat) + (kn_wsc(xb, h, k, yc) - qt * yv * bp((k - yc) as nat)) < yv * bp((k - yc) as nat)
+{
+    let p = (k - yc) as nat; let pp = bp(p);
+    let wsc = kn_wsc(xb, h, k, yc);
+    let rp = wsc - qt * yv * pp;
+    lemma_bp_add(p, yc); lemma_bp_succ(p);
+    lemma_val_bound(xb, p);
+    lemma_tv_factor(xb, p, k);
+    let w = tvq(xb, p, k);
+    let byc = bp(yc);
+    let z = w + h * byc - qt * yv;
+    assert(h * (pp * byc) == pp * (h * byc)) by (nonlinear_arith);
+    assert(qt * yv * pp == pp * (qt * yv)) by (nonlinear_arith);
+    assert(pp * (w + h * byc - qt * yv) == pp * w + pp * (h * byc) - pp * (qt * yv)) by (nonlinear_arith);
+    assert(rp == pp * z);
+    assert(z < yv) by (nonlinear_arith) requires pp * z < yv * pp, pp > 0;
+    assert(pp * z <= pp * (yv - 1)) by (nonlinear_arith) requires z <= yv - 1, pp > 0;
+    assert(pp * (yv - 1) == yv * pp - pp) by (nonlinear_arith);
+}
+
+/// end of one iteration of div_rem_vartime: the outer invariant moves from k to k - 1
+proof fn lemma_knuth_iter_vt(xb: Seq<Limb>, xa: Seq<Limb>, xn: Seq<Limb>, h: int, k: nat, yc: nat, n: nat, yv: int, qt: int, qacc: int, xv: int)
+    requires 2 <= yc <= k <= n, yv > 0,
+        0 <= kn_wsc(xb, h, k, yc) - qt * yv * bp((k - yc) as nat) < yv * bp((k - yc) as nat),
+        tv(xa, (k - yc) as nat, k) == kn_wsc(xb, h, k, yc) - qt * yv * bp((k - yc) as nat),
+        forall|j: int| 0 <= j < n && !(k - yc <= j < k) ==> xa[j] == xb[j],
+        forall|j: int| 0 <= j < n && j != k - 1 ==> xn[j] == xa[j],
+        xn[k - 1].0 as int == qt,
+        xv == qacc * yv + h * bp(k) + val(xb, k),
+        tv(xb, k, n) == qacc * bp((yc - 1) as nat),
+    ensures
+        xv == (qacc + qt * bp((k - yc) as nat)) * yv + xa[k - 1].0 as int * bp((k - 1) as nat) + val(xn, (k - 1) as nat),
+        xa[k - 1].0 as int * bp((k - 1) as nat) + val(xn, (k - 1) as nat) < yv * bp((k - yc) as nat),
+        tv(xn, (k - 1) as nat, n) == (qacc + qt * bp((k - yc) as nat)) * bp((yc - 1) as nat),
+{
+    let p = (k - yc) as nat; let pp = bp(p); let xi = (k - 1) as nat;
+    let wsc = kn_wsc(xb, h, k, yc);
+    let rp = wsc - qt * yv * pp;
+    let hn = xa[xi as int].0 as int;
+    lemma_val_ext(xa, xn, xi);
+    lemma_val_ext(xb, xa, p);
+    lemma_tv_ext(xn, xa, k, n);
+    lemma_tv_ext(xa, xb, k, n);
+    lemma_bp_succ(xi);
+    lemma_bp_add(p, (yc - 1) as nat);
+    assert((p + (yc - 1)) as nat == xi);
+    assert(val(xa, k) == val(xa, xi) + hn * bp(xi));
+    assert(hn * bp(xi) + val(xn, xi) == val(xb, p) + rp);
+    assert(h * bp(k) + val(xb, k) == val(xb, p) + wsc);
+    assert(val(xn, k) == val(xn, xi) + qt * bp(xi));
+    assert(tv(xn, xi, n) == tv(xn, k, n) + qt * bp(xi));
+    assert(qt * bp(xi) == (qt * pp) * bp((yc - 1) as nat)) by (nonlinear_arith) requires bp(xi) == pp * bp((yc - 1) as nat);
+    assert((qacc + qt * pp) * bp((yc - 1) as nat) == qacc * bp((yc - 1) as nat) + (qt * pp) * bp((yc - 1) as nat)) by (nonlinear_arith);
+    assert((qacc + qt * pp) * yv == qacc * yv + qt * yv * pp) by (nonlinear_arith);
+    lemma_knuth_rem_bound(xb, h, k, yc, yv, qt);
+}
+
 //@@ subst \b(Self|Uint)::(ZERO|ONE|MAX|BITS|LOG2_BITS)\b(?!\() => \1::\2()
 //@@ subst \bUint::<(\w+)>::(ZERO|ONE|MAX|BITS)\b(?!\() => Uint::<\1>::\2()
 //@@ fn src/uint/div.rs | impl<const LIMBS: usize> Uint<LIMBS> | shl_limb_vartime | body | props C02 C11
@@ -227,20 +692,317 @@ pub const fn shr_limb_vartime(&self, shift: u32, limbs_num: usize) -> (ret__: Se
     }
 }
 //@@ end
-//@@ fn src/uint/div.rs | impl<const LIMBS: usize> Uint<LIMBS> | div_rem_vartime | stub | props C02 C11 C15
+//@@ fn src/uint/div.rs | impl<const LIMBS: usize> Uint<LIMBS> | div_rem_vartime | body | props C02 C11 C15
 impl<const LIMBS: usize> Uint<LIMBS> {
-#[verifier::external_body]
 pub const fn div_rem_vartime<const RHS_LIMBS: usize>(
         &self,
         rhs: &NonZero<Uint<RHS_LIMBS>>,
     ) -> (ret__: (Self, Uint<RHS_LIMBS>))
 //@+
     requires 1 <= LIMBS < 0x400_0000, 1 <= RHS_LIMBS < 0x400_0000, rhs.0.v() != 0
-    ensures ret__.0.v() * rhs.0.v() + ret__.1.v() == self.v(), 0 <= ret__.1.v() < rhs.0.v()
+    ensures ret__.0.v() * rhs.0.v() + ret__.1.v() == self.v(), 0 <= ret__.1.v() < rhs.0.v(),
+        ret__.0.v() == self.v() / rhs.0.v(), ret__.1.v() == self.v() % rhs.0.v()
 //@-
 {
-    unimplemented!()
-}
+        // Based on Section 4.3.1, of The Art of Computer Programming, Volume 2, by Donald E. Knuth.
+        // Further explanation at https://janmr.com/blog/2014/04/basic-multiple-precision-long-division/
+        let dbits = rhs.0.bits_vartime();
+        let yc = dbits.div_ceil(Limb::BITS) as usize;
+//@+
+    let ghost rv = rhs.0.v();
+    let ghost sv = self.v();
+    proof {
+        lemma_val_bound(rhs.0.limbs@, RHS_LIMBS as nat); lemma_val_bound(self.limbs@, LIMBS as nat);
+        lemma_bp1();
+        lemma_bp_pow2(yc as nat);
+        lemma_bp_pow2(LIMBS as nat);
+        if (dbits as nat) < 64 * (yc as nat) { lemma_pow2_strictly_increases(dbits as nat, 64 * (yc as nat)); }
+        assert(rv < bp(yc as nat));
+        lemma_val_small(rhs.0.limbs@, yc as nat, RHS_LIMBS as nat);
+    }
+//@-
+        // Short circuit for small or extra large divisors
+        if yc == 1 {
+            // If the divisor is a single limb, use limb division
+//@+
+    proof { lemma_val_single(rhs.0.limbs@, RHS_LIMBS as nat); }
+//@-
+            let (q, r) = div_rem_limb_with_reciprocal(
+                self,
+                &Reciprocal::new(rhs.0.limbs[0].to_nz().expect("zero divisor")),
+            );
+//@+
+    proof { lemma_fundamental_div_mod_converse(sv, rv, q.v(), r.0 as int); }
+//@-
+            return (q, Uint::from_word(r.0));
+        }
+        if yc > LIMBS {
+            // Divisor is greater than dividend. Return zero and the dividend as the
+            // quotient and remainder
+//@+
+    proof {
+        // rv >= 2^(dbits-1) >= 2^(64*LIMBS) > sv
+        assert(dbits as int - 1 >= 64 * LIMBS);
+        if (dbits - 1) as nat > 64 * (LIMBS as nat) { lemma_pow2_strictly_increases(64 * (LIMBS as nat), (dbits - 1) as nat); }
+        assert(0 * rv == 0);
+        lemma_fundamental_div_mod_converse(sv, rv, 0, sv);
+    }
+//@-
+            return (Uint::ZERO(), self.resize());
+        }
+        // The shift needed to set the MSB of the highest nonzero limb of the divisor.
+        // 2^shift == d in the algorithm above.
+        let shift = (Limb::BITS - (dbits % Limb::BITS)) % Limb::BITS;
+//@+
+    let ghost s2 = p2(shift as nat);
+    let ghost yv = rv * s2;   // normalised divisor
+    let ghost xv = sv * s2;   // shifted dividend
+//@-
+        let (x, mut x_hi) = self.shl_limb_vartime(shift, LIMBS);
+        let mut x = x.to_limbs();
+        let (y, _) = rhs.0.shl_limb_vartime(shift, yc);
+        let mut y = y.to_limbs();
+//@+
+    proof {
+        lemma_knuth_norm(rv, sv, dbits as nat, yc as nat, LIMBS as nat, shift as nat);
+        lemma_small_mod(yv as nat, bp(yc as nat) as nat);
+        assert(val(y@, yc as nat) == yv);
+        assert(forall|j: int| yc <= j < RHS_LIMBS ==> y@[j].0 == 0);
+        assert(val(x@, LIMBS as nat) + x_hi.0 as int * bp(LIMBS as nat) == xv);
+        lemma_knuth_top_norm(y@, yc as nat);
+    }
+//@-
+        let reciprocal = Reciprocal::new(y[yc - 1].to_nz().expect("zero divisor"));
+        let mut i;
+        let mut xi = LIMBS - 1;
+//@+
+    let ghost mut k: nat = LIMBS as nat;    // Rem = x_hi * B^k + val(x, k)
+    let ghost mut qacc: int = 0;
+    proof {
+        assert(0 * yv == 0);
+        assert(tv(x@, LIMBS as nat, LIMBS as nat) == 0);
+        assert(0 * bp((yc - 1) as nat) == 0);
+    }
+//@-
+        loop
+//@+
+    invariant_except_break
+        k == xi + 1,
+    invariant
+        2 <= yc <= LIMBS, yc <= RHS_LIMBS, yc - 1 <= xi < LIMBS, 1 <= LIMBS < 0x400_0000,
+        yc - 1 <= k <= LIMBS,
+        val(y@, yc as nat) == yv, 2 * yv >= bp(yc as nat), yv < bp(yc as nat), yv > 0,
+        forall|j: int| yc <= j < RHS_LIMBS ==> y@[j].0 == 0,
+        reciprocal.wf(), reciprocal.shift == 0, reciprocal.divisor_normalized == y@[yc - 1].0,
+        xv == qacc * yv + x_hi.0 as int * bp(k) + val(x@, k),
+        x_hi.0 as int * bp(k) + val(x@, k) < yv * bp((k - yc + 1) as nat),
+        tv(x@, k, LIMBS as nat) == qacc * bp((yc - 1) as nat),
+    ensures
+        k == xi, xi == yc - 1,
+    decreases xi,
+//@-
+{
+//@+
+    let ghost p = (xi + 1 - yc) as nat;
+    let ghost pp = bp(p);
+    let ghost xb = x@;
+    let ghost hb = x_hi.0 as int;
+    let ghost wsc = kn_wsc(xb, hb, k, yc as nat);
+    let ghost qt = kn_qt(xb, hb, k, yc as nat, yv);
+    let ghost rp = wsc - qt * yv * pp;
+    proof { lemma_knuth_top(xb, y@, hb, k, yc as nat, yv); }
+//@-
+            // Divide high dividend words by the high divisor word to estimate the quotient word
+            let mut quo = div3by2(x_hi.0, x[xi].0, x[xi - 1].0, &reciprocal, y[yc - 2].0);
+//@+
+    let ghost q = quo as int;
+    proof {
+        lemma_knuth_quo(xb, y@, hb, k, yc as nat, yv, q);
+        assert((qt + 1) * yv * pp == qt * yv * pp + yv * pp) by (nonlinear_arith);
+        assert(0 <= rp < yv * pp);
+    }
+//@-
+            // Subtract q*divisor from the dividend
+            let borrow = {
+                let mut carry = Limb::ZERO;
+                let mut borrow = Limb::ZERO;
+                let mut tmp;
+                i = 0;
+//@+
+    proof { assert(q * val(y@, 0) * pp == 0) by (nonlinear_arith) requires val(y@, 0) == 0; assert(0 * bp((p + 0) as nat) == 0); }
+//@-
+                while i < yc
+//@+
+    invariant
+        2 <= yc <= LIMBS, yc <= RHS_LIMBS, xi < LIMBS, xi + 1 >= yc, LIMBS < 0x400_0000,
+        p == xi + 1 - yc, pp == bp(p), q == quo as int, 0 <= i <= yc,
+        borrow.0 == 0 || borrow.0 == u64::MAX,
+        forall|kq: int| 0 <= kq < LIMBS && !(p <= kq < p + i) ==> x@[kq] == xb[kq],
+        tv(x@, p, (p + i) as nat) == tv(xb, p, (p + i) as nat) - q * val(y@, i as nat) * pp
+            + carry.0 as int * bp((p + i) as nat) + bb(borrow) * bp((p + i) as nat),
+    decreases yc - i,
+//@-
+{
+//@+
+    let ghost x_before = x@; let ghost carry_b = carry; let ghost borrow_b = borrow;
+//@-
+                    let (__t0, __t1) = Limb::ZERO.mac(y[i], Limb(quo), carry); tmp = __t0; carry = __t1;
+                    let (__t2, __t3) = x[xi + i + 1 - yc].sbb(tmp, borrow); x[xi + i + 1 - yc] = __t2; borrow = __t3;
+//@+
+    proof {
+        lemma_knuth_sub_step(xb, x_before, x@, y@, p, i as nat, q, carry_b.0 as int, carry.0 as int, bb(borrow_b), bb(borrow), tmp.0 as int);
+    }
+//@-
+                    i += 1;
+                }
+//@+
+    let ghost bprev = borrow;
+//@-
+                let (_, __t4) = x_hi.sbb(carry, borrow); borrow = __t4;
+//@+
+    proof {
+        assert((bb(borrow) == 1) <==> (hb - carry.0 as int - bb(bprev) < 0));
+        assert((p + yc) as nat == k);
+        lemma_knuth_sub_final(xb, x@, hb, k, yc as nat, yv, q, carry.0 as int, bb(bprev), bb(borrow));
+    }
+//@-
+                borrow
+            };
+//@+
+    let ghost xs = x@;
+    proof {
+        assert((bb(borrow) == 1) <==> (q == qt + 1));
+        assert(tv(xs, p, k) == (if bb(borrow) == 1 { bp(k) + rp - yv * pp } else { rp }));
+    }
+//@-
+            // If the subtraction borrowed, then decrement q and add back the divisor
+            // The probability of this being needed is very low, about 2/(Limb::MAX+1)
+            quo = {
+                let ct_borrow = ConstChoice::from_word_mask(borrow.0);
+                let mut carry = Limb::ZERO;
+                i = 0;
+//@+
+    let ghost m: int = if ct_borrow.t() { 1 } else { 0 };
+    proof { assert(m * val(y@, 0) * pp == 0) by (nonlinear_arith) requires val(y@, 0) == 0; assert(0 * bp((p + 0) as nat) == 0); }
+//@-
+                while i < yc
+//@+
+    invariant
+        2 <= yc <= LIMBS, yc <= RHS_LIMBS, xi < LIMBS, xi + 1 >= yc, LIMBS < 0x400_0000,
+        p == xi + 1 - yc, pp == bp(p), 0 <= i <= yc, ct_borrow.wf(), m == (if ct_borrow.t() { 1int } else { 0int }),
+        forall|kq: int| 0 <= kq < LIMBS && !(p <= kq < p + i) ==> x@[kq] == xs[kq],
+        tv(x@, p, (p + i) as nat) + carry.0 as int * bp((p + i) as nat)
+            == tv(xs, p, (p + i) as nat) + m * val(y@, i as nat) * pp,
+    decreases yc - i,
+//@-
+{
+//@+
+    let ghost x_before = x@; let ghost carry_b = carry;
+//@-
+                    let (__t5, __t6) = x[xi + i + 1 - yc].adc(Limb::select(Limb::ZERO, y[i], ct_borrow), carry); x[xi + i + 1 - yc] = __t5; carry = __t6;
+//@+
+    proof {
+        let sel = if ct_borrow.t() { y@[i as int].0 as int } else { 0int };
+        lemma_knuth_add_step(xs, x_before, x@, y@, p, i as nat, m, sel, carry_b.0 as int, carry.0 as int);
+    }
+//@-
+                    i += 1;
+                }
+//@+
+    proof {
+        assert((p + yc) as nat == k);
+        lemma_knuth_add_final(xs, x@, k, yc as nat, yv, m, carry.0 as int, rp);
+    }
+//@-
+                ct_borrow.select_word(quo, quo.wrapping_sub(1))
+            };
+//@+
+    let ghost xa = x@;
+    proof {
+        assert(quo as int == qt);
+        assert(forall|kq: int| 0 <= kq < LIMBS && !(p <= kq < k) ==> xa[kq] == xb[kq]);
+        assert(tv(xa, p, k) == rp);
+    }
+//@-
+            // Store the quotient within dividend and set x_hi to the current highest word
+            x_hi = x[xi];
+            x[xi] = Limb(quo);
+//@+
+    proof {
+        lemma_knuth_iter_vt(xb, xa, x@, hb, k, yc as nat, LIMBS as nat, yv, qt, qacc, xv);
+        qacc = qacc + qt * pp;
+        k = xi as nat;
+        assert((k - yc + 1) as nat == p);
+    }
+//@-
+            if xi == yc - 1 {
+                break;
+            }
+            xi -= 1;
+        }
+//@+
+    // here: k == xi == yc - 1 ; Rem = x_hi * B^(yc-1) + val(x, yc-1) < yv ; xv == qacc * yv + Rem
+    let ghost xq = x@;
+    let ghost rem_n = x_hi.0 as int * bp((yc - 1) as nat) + val(xq, (yc - 1) as nat);
+    proof { lemma_bp1(); assert(yv * bp(0) == yv) by (nonlinear_arith) requires bp(0) == 1; assert(rem_n < yv); }
+//@-
+        // Copy the remainder to divisor
+        i = 0;
+        while i < yc - 1
+//@+
+    invariant 2 <= yc <= LIMBS, yc <= RHS_LIMBS, 0 <= i <= yc - 1, x@ == xq,
+        forall|j: int| 0 <= j < i ==> y@[j] == xq[j],
+        forall|j: int| yc <= j < RHS_LIMBS ==> y@[j].0 == 0,
+    decreases yc - 1 - i,
+//@-
+{
+            y[i] = x[i];
+            i += 1;
+        }
+        y[yc - 1] = x_hi;
+//@+
+    proof {
+        lemma_val_ext(y@, xq, (yc - 1) as nat);
+        assert(val(y@, yc as nat) == rem_n);
+    }
+//@-
+        // Unshift the remainder from the earlier adjustment
+        let y = Uint::new(y).shr_limb_vartime(shift, yc);
+        // Shift the quotient to the low limbs within dividend
+        i = 0;
+        while i < LIMBS
+//@+
+    invariant 2 <= yc <= LIMBS, 0 <= i <= LIMBS,
+        forall|j: int| 0 <= j < i && j <= LIMBS - yc ==> x@[j] == xq[j + yc - 1],
+        forall|j: int| 0 <= j < i && j > LIMBS - yc ==> x@[j].0 == 0,
+        forall|j: int| i <= j < LIMBS ==> x@[j] == xq[j],
+    decreases LIMBS - i,
+//@-
+{
+            if i <= (LIMBS - yc) {
+                x[i] = x[i + yc - 1];
+            } else {
+                x[i] = Limb::ZERO;
+            }
+            i += 1;
+        }
+//@+
+    proof {
+        let m = (LIMBS - yc + 1) as nat; let d = (yc - 1) as nat;
+        lemma_shift_down(xq, x@, d, LIMBS as nat, m);
+        lemma_val_hi_zero(x@, m, LIMBS as nat);
+        assert((m + d) as nat == LIMBS as nat);
+        lemma_bp_succ(d);
+        assert(val(x@, LIMBS as nat) == qacc) by (nonlinear_arith)
+            requires val(x@, LIMBS as nat) * bp(d) == qacc * bp(d), bp(d) > 0;
+        lemma_val_bound(xq, d);
+        lemma_knuth_unshift(sv, rv, s2, qacc, rem_n, x_hi.0 as int * bp(d), val(xq, d));
+        lemma_val_hi_zero(y.limbs@, yc as nat, RHS_LIMBS as nat);
+        lemma_fundamental_div_mod_converse(sv, rv, qacc, rem_n / s2);
+    }
+//@-
+        (Uint::new(x), y)
+    }
 }
 //@@ end
 //@@ fn src/uint/div.rs | impl<const LIMBS: usize> Uint<LIMBS> | rem_vartime | stub | props C02 C11 C15
